@@ -287,7 +287,9 @@ def main():
     jobs.append(('basic', basic_harness(on), {'kind': 'basic'}))
     kron_cfgs = [([(2, 2)], ['dense']), ([(2, 3)], ['sparse']), ([(2, 2), (2, 2)], ['dense', 'dense']), ([(2, 3), (3, 2)], ['dense', 'dense']),
                  ([(2, 2), (3, 3)], ['sparse', 'sparse']), ([(2, 2), (2, 2)], ['linop', 'sparse']), ([(2, 3), (1, 2)], ['sparse', 'sparse']),
-                 ([(2, 1), (2, 2), (1, 2)], ['dense', 'dense', 'dense']), ([(2, 2), (1, 1), (2, 2)], ['linop', 'dense', 'sparse'])]
+                 ([(2, 1), (2, 2), (1, 2)], ['dense', 'dense', 'dense']), ([(2, 2), (1, 1), (2, 2)], ['linop', 'dense', 'sparse']),
+                 # rectangular factors whose Kronecker product happens to be square, non-dense operands
+                 ([(2, 3), (3, 2)], ['sparse', 'sparse']), ([(3, 2), (2, 3)], ['linop', 'dense']), ([(2, 3), (3, 2), (2, 2)], ['sparse', 'dense', 'linop'])]
     if thorough:
         kron_cfgs += [([(3, 2), (2, 3)], ['linop', 'linop']), ([(2, 2), (2, 2), (2, 2)], ['sparse', 'sparse', 'sparse']), ([(3, 3), (2, 2)], ['dense', 'linop']),
                       ([(1, 3), (3, 1)], ['dense', 'sparse']), ([(2, 2), (3, 2)], ['sparse', 'dense'])]
